@@ -30,7 +30,9 @@ ASSUMPTIONS = [
 ]
 
 FORMULA_SRC = {"F1": "center(a) + A", "F2": "a:A + scale(b)", "F3": "y ~ a | A", "F4": "bs(a, df=3) + C(A, contr.sum)",
-               "F5": "0 + A:B + center(b)", "F6": "bs(a, knots=kn, degree=2) + center(b)"}
+               "F5": "0 + A:B + center(b)", "F6": "bs(a, knots=kn, degree=2) + center(b)",
+               # several python factors over the same back-quoted names, two of which (`a b`, `a+b`) sanitize to one python alias
+               "F7": "center(`a b`) + scale(`a b`) + center(`a+b`)"}
 
 
 def _plain_center(x):
@@ -58,12 +60,17 @@ def make_world():
                        "A": pd.Series(["y", "y", "z", None, "x"], dtype=object), "B": pd.Series(["v", "u", "u", "v", "w"], dtype=object)},
                       index=[3, 1, 4, 1, 5])
     d1[7] = [0.0, 1.0, 0.0, 1.0]  # a non-string column label that no formula uses
+    d1["a b"], d1["a+b"] = [3.0, 1.0, 4.0, 1.5], [10.0, 20.0, 30.0, 25.0]
+    d2["a b"], d2["a+b"] = [2.0, 7.0, 1.0, 8.0, 2.5], [1.0, 4.0, 9.0, 16.0, 25.0]
     w = {"D1": d1, "D2": d2}
     for k, src in FORMULA_SRC.items():
-        if k == "F6":
-            continue  # needs a context (knots list): only built through ("mmctx", ...)
-        w[k] = Formula(src)
-        w["U" + k[1:]] = ModelSpec.from_spec(w[k])
+        if k in ("F6", "F7"):
+            continue  # F6 needs a context (knots list): only built through ("mmctx", ...); F7 is built from its string there too
+        try:
+            w[k] = Formula(src)
+            w["U" + k[1:]] = ModelSpec.from_spec(w[k])
+        except Exception as e:  # noqa - e.g. module-level parser state left behind by an earlier event: shows up as a differing result
+            w[k] = w["U" + k[1:]] = e
     w["specs"] = {}
     w["contexts"] = make_contexts()
     return w
@@ -74,7 +81,7 @@ def world_digests(w):
            "contexts": digest({k: {n: (v if not callable(v) else v.__name__) for n, v in c_.items()} for k, c_ in w["contexts"].items()})}
     for k in FORMULA_SRC:
         if k in w:
-            out[k] = digest(_formula_terms(w[k]))
+            out[k] = digest(_formula_terms(w[k])) if not isinstance(w[k], Exception) else repr(w[k])[:80]
     return out
 
 
@@ -144,6 +151,11 @@ def do_event(w, ev, fresh=False):
                 return resolve(w, ev[1], fresh).get_model_matrix(w[ev[2]])
             if kind in ("update", "pickle", "subset"):
                 return resolve(w, (kind, ev[1]), True) if fresh else _make_spec(w, (kind, ev[1]))
+            if kind == "parser":
+                # somebody else configures a parser of their own (and uses it once): must not influence anybody's later parses
+                from formulaic.parser import DefaultFormulaParser
+                from props.common import terms_to_plain
+                return [repr(terms_to_plain(DefaultFormulaParser(feature_flags=set(f for f in ev[1].split("+") if f)).get_terms("a + b")))]
             if kind == "diff":
                 return w[ev[1]].differentiate("a")
             if kind == "reqvars":
@@ -201,6 +213,8 @@ def menu(w, ctx):
     for f in ctx["formulas"]:
         evs.append(("diff", f))
         evs.append(("reqvars", f))
+    for flags in ctx.get("parser_events", []):
+        evs.append(("parser", flags))
     return evs
 
 
@@ -298,7 +312,7 @@ def _safe(fn):
 # ---------------------------------------------------------------------------
 # the factor-order seam
 
-PERM_FORMULAS = ["center(a) + A", "a:A + scale(b)", "y ~ a | A", "bs(a, df=3) + C(A, contr.sum) + b", "center(a) + scale(b) + A + {a*b}",
+PERM_FORMULAS = [FORMULA_SRC["F7"], "center(a) + A", "a:A + scale(b)", "y ~ a | A", "bs(a, df=3) + C(A, contr.sum) + b", "center(a) + scale(b) + A + {a*b}",
                  "poly(a, 2):A + center(b)", "y ~ center(a) + A | scale(a) + b"]
 
 
@@ -473,7 +487,7 @@ def drv_seeds(c, ctx, col):
 # between calls cannot be seen against an in-process "fresh world", so every history is also run in its own interpreter and
 # each event's result is compared with the same event run alone in its own interpreter.
 
-PROC_EVENTS = [("F6", "D1", "ctx-default"), ("F1", "D1", "ctx-default"), ("F1", "D1", "ctx-shadow"), ("F1", "D2", "ctx-default"), ("F2", "D1", "ctx-default"),
+PROC_EVENTS = [("parser", ""), ("parser", "TWOSIDED"), ("F7", "D1", "ctx-default"), ("F6", "D1", "ctx-default"), ("F1", "D1", "ctx-default"), ("F1", "D1", "ctx-shadow"), ("F1", "D2", "ctx-default"), ("F2", "D1", "ctx-default"),
                ("F2", "D2", "ctx-shadow"), ("F5", "D2", "ctx-default"), ("F4", "D1", "ctx-default"), ("F3", "D1", "ctx-default")]
 
 PROBE_HIST = r"""
@@ -487,7 +501,7 @@ hist = json.loads(%r)
 out = []
 for ev in hist:
     w = c18.make_world()
-    out.append(c18.result_digest(c18.do_event(w, ('mmctx',) + tuple(ev))))
+    out.append(c18.result_digest(c18.do_event(w, tuple(ev) if ev[0] == 'parser' else ('mmctx',) + tuple(ev))))
 print(json.dumps(out))
 """
 
@@ -512,6 +526,8 @@ def proc_baseline():
 def drv_proc_hist(c, ctx, col):
     n = 2 + c.upto(ctx["D"] - 2)
     hist = [c.pick(PROC_EVENTS) for _ in range(n)]
+    if all(e[0] == "parser" for e in hist):
+        raise Skip()
     got = run_hist_probe(hist)
     col.interesting()
     for i, (ev, g) in enumerate(zip(hist, got)):
@@ -534,7 +550,7 @@ def subchecks(tier, seed):
             shard_depth=2, bounds={"max_events": 2 if quick else 3, "formulas": FORMULA_SRC, "frames": 2}),
         Sub("histories-depth3-slice", drv_hist, {"D": 3, "formulas": ["F1"] if quick else ["F1", "F2", "F3", "F4"], "entries": ["umm"] if quick else ["mm", "umm"]},
             shard_depth=2, bounds={"max_events": 3, "formulas": ["F1"] if quick else list(FORMULA_SRC), "entries": "shared unfitted specs (+model_matrix in thorough)"}),
-        Sub("histories-contexts", drv_hist, {"D": 2 if quick else 3, "formulas": [], "ctx_formulas": ["F1", "F2", "F6"], "entries": []},
+        Sub("histories-contexts", drv_hist, {"D": 2 if quick else 3, "formulas": [], "ctx_formulas": ["F1", "F2", "F6", "F3", "F7"], "entries": []},
             shard_depth=2, bounds={"max_events": 2 if quick else 3, "events": "builds of F1/F2 under the default context and under a context binding "
                                    "'center'/'scale' to plain functions, reuse of every produced spec, update, pickle, subset"}),
         Sub("hash-orders", drv_hashorder, {"formulas": HASH_FORMULAS[:4] if quick else HASH_FORMULAS}, shard_depth=3,
